@@ -84,6 +84,13 @@ HighRankCases(op) ==
    LET lead2 == [i \in 1..66 |-> IF i = 1 THEN 2 ELSE 1] tail3 == [i \in 1..66 |-> IF i = 66 THEN 3 ELSE 1] mid == [i \in 1..66 |-> IF i = 65 THEN 2 ELSE 1] IN
    \A p \in {<<<<3>>, lead2>>, <<tail3, lead2>>, <<lead2, tail3>>, <<lead2, <<3>>>>, <<tail3, mid>>, <<mid, <<2, 3>>>>, <<lead2, lead2>>} :
       PrintT(<<"CASE", ToJson([CaseOf(op, "f32", p[1], p[2]) EXCEPT !.feat = @ \o <<"rank66">>])>>)
+\* every pair of ranks 0..12: the operand of lower rank is padded with 1..12 leading axes (total sizes kept small: one axis of
+\* extent 2 or 3 in each operand, the others 1, the stretched axis placed last, first, and in the middle of the shorter operand)
+RankLadderCases(op) ==
+   \A ra \in 0..12, rb \in 0..12 : (ra # rb /\ (ra > 4 \/ rb > 4)) =>
+      \A ka \in {1, (ra + 1) \div 2, ra}, kb \in {1, rb} : (ka >= 1 /\ ka <= ra /\ kb >= 1 /\ kb <= rb) \/ (ra = 0 /\ ka = 1 /\ kb \in {1, rb}) \/ (rb = 0 /\ kb = 1 /\ ka >= 1 /\ ka <= ra) =>
+         LET sa == [i \in 1..ra |-> IF i = ka THEN 2 ELSE 1] sb == [i \in 1..rb |-> IF i = kb THEN 3 ELSE 1] IN
+         PrintT(<<"CASE", ToJson([CaseOf(op, "f32", sa, sb) EXCEPT !.feat = @ \o <<"rank_ladder", "ranks_" \o ToString(ra) \o "_" \o ToString(rb)>>])>>)
 \* tiling law (Outcome.tla): the flagged operands are repeated beyond a million elements by the harness
 TileVariants == {<<<<3, 2>>, <<2>>, {1}>>, <<<<3>>, <<1>>, {1}>>, <<<<1>>, <<3>>, {2}>>, <<<<3, 1>>, <<1, 2>>, {1}>>, <<<<3, 2>>, <<3, 1>>, {1, 2}>>, <<<<3>>, <<>>, {1}>>,
                  <<<<3, 2>>, <<3, 2>>, {1, 2}>>, <<<<3, 1, 2>>, <<2, 1>>, {1}>>}
@@ -93,7 +100,7 @@ TileCases(op) ==
       TileLaw(LAMBDA ins : IF op = "MultidirectionalBroadcast" THEN Multi(ins[1], ins[2]) ELSE Uni(ins[1], ins[2]), c.inputs, v[3]) =>
          PrintT(<<"CASE", ToJson([c EXCEPT !.feat = @ \o <<"tile_law">>] @@ [tile |-> TileField(v[3])])>>)
 Emit == /\ ~st.done
-        /\ (st.dt = "f32" /\ st.a = <<>> /\ st.b = <<>> => ValueCases(st.op) /\ LongCases(st.op) /\ TileCases(st.op) /\ WideCases(st.op) /\ HighRankCases(st.op) /\ SameDataCases(st.op))
+        /\ (st.dt = "f32" /\ st.a = <<>> /\ st.b = <<>> => ValueCases(st.op) /\ LongCases(st.op) /\ TileCases(st.op) /\ WideCases(st.op) /\ HighRankCases(st.op) /\ SameDataCases(st.op) /\ RankLadderCases(st.op))
         /\ PrintT(<<"CASE", ToJson(CaseOf(st.op, st.dt, st.a, st.b))>>)
         /\ (st.dt = "f32" /\ Len(st.a) <= 2 /\ Len(st.b) <= 2 =>
               \A p \in MixedPairs : PrintT(<<"CASE", ToJson(MixedCase(st.op, p[1], p[2], st.a, st.b))>>))
